@@ -361,6 +361,16 @@ def lipschitz_facts(kind, seed, tid0, nrep):
             if A.size == 0:
                 return 0.0
             return float(np.linalg.eigvalsh((A + A.T) / 2)[-1])
+
+        def gap_ok(A):
+            """the power method (100 iterations) is accurate to 1e-3 only with a spectral gap"""
+            if A.size == 0:
+                return True
+            ev = np.linalg.eigvalsh((A + A.T) / 2)
+            if len(ev) < 2 or ev[-1] <= 0:
+                return True
+            r = max(ev[-2], 0.0) / ev[-1]
+            return bool(r <= 0.94 or r >= 1 - 1e-12)
         if grs is not None:
             try:
                 Ld = np.asarray(df.get_lipschitz(Xo, y), dtype=float)
@@ -377,9 +387,10 @@ def lipschitz_facts(kind, seed, tid0, nrep):
             if hasattr(df, "get_lipschitz_sparse") and kind == "QuadraticGroup":
                 Ls = np.asarray(df.get_lipschitz_sparse(*bund, y), dtype=float)
                 for g, idx in enumerate(grs):
-                    true = lam(Xo[:, idx].T @ (Mdiag[:, None] * Xo[:, idx]))
+                    G = Xo[:, idx].T @ (Mdiag[:, None] * Xo[:, idx])
+                    true = lam(G)
                     f.le("sparse_not_above", Ls[g], true * (1 + 1e-9) + 1e-12)
-                    f.le("sparse_accuracy", true * (1 - 1e-3) - 1e-12, Ls[g])
+                    f.le("sparse_accuracy", true * (1 - 1e-3) - 1e-12, Ls[g], when=gap_ok(G))
         if hasattr(df, "get_global_lipschitz"):
             try:
                 Lg = float(df.get_global_lipschitz(Xo, y))
@@ -389,11 +400,12 @@ def lipschitz_facts(kind, seed, tid0, nrep):
                 Lg, Lgs = float("nan"), None
                 f.meta["exc"] = type(e).__name__
             if Mdiag is not None:
-                true = lam(Xo.T @ (Mdiag[:, None] * Xo))
+                G = Xo.T @ (Mdiag[:, None] * Xo)
+                true = lam(G)
                 f.approx("global_exact", Lg, true, 1e-12, 1e-9)
                 if Lgs is not None:
                     f.le("sparse_not_above", Lgs, true * (1 + 1e-9) + 1e-12)
-                    f.le("sparse_accuracy", true * (1 - 1e-3) - 1e-12, Lgs)
+                    f.le("sparse_accuracy", true * (1 - 1e-3) - 1e-12, Lgs, when=gap_ok(G))
             else:
                 # Cox: a bound -- must dominate the curvature at every point tried
                 for k in range(6):
@@ -402,7 +414,7 @@ def lipschitz_facts(kind, seed, tid0, nrep):
                     f.le("global_bound", lam(Xo.T @ H @ Xo) * (1 - 1e-6), Lg)
                 if Lgs is not None:
                     f.le("sparse_not_above", Lgs, Lg * (1 + 1e-9) + 1e-12)
-                    f.le("sparse_accuracy", Lg * (1 - 1e-3) - 1e-12, Lgs)
+                    f.le("sparse_accuracy", Lg * (1 - 1e-3) - 1e-12, Lgs, when=gap_ok(Xo.T @ Xo))
         # coordinate constants dense vs sparse
         if hasattr(df, "get_lipschitz") and grs is None:
             try:
